@@ -32,6 +32,21 @@ def correspondence(ctx):
                               "code": type_replay(q, b, registered, ctx.seed, ctx.tier)})
             elif not any(f["key"] == cls for f in known_hits):
                 known_hits.append({"key": cls, "what": cls, "code": None})
+    # operators / ufunc forms = methods, value and type, on object / NumPy / Awkward (flat, jagged)
+    obad, ost = backends.operator_value_lattice(ctx)
+    total += ost["operator_elements"]
+    st.update(ost)
+    seen_ = set()
+    for a_, b_, k_ in obad:
+        if k_ in seen_:
+            continue
+        seen_.add(k_)
+        if k_ == "awkward-matmul":
+            known_hits.append({"key": k_, "what": k_, "code": None})
+            classes[k_] = classes.get(k_, 0) + 1
+            continue
+        dis.append(f"operator: {a_} :: {b_}"[:300])
+        fails.append({"key": k_, "what": f"{a_}: {b_}"[:400], "code": operator_replay(ctx.seed, ctx.tier, k_)})
     st.update({"traces_validated_against_impl": total, "type_lattice_disagreement_classes": classes})
     return {"ok": not dis, "disagreements": dis[:20], "failing_inputs": fails[:10] + known_hits, "stats": st,
             "samples": [{"request": reqs[i], "answer": symobj.real_answer(reqs[i])[:160]} for i in (0, len(reqs) // 2, len(reqs) - 1)]}
@@ -42,3 +57,9 @@ def type_replay(q, want, registered, seed, tier):
             "from harness import backends as Bk\nclass X: seed=%d; tier=%r\nreqs, bad = Bk.type_lattice(X)\n"
             "hit=[b for b in bad if b[0]==%r]\nassert not hit, 'real: %%s, rule: %%s' %% (hit[0][1], hit[0][2])\n"
             % (C.VERIF, C.VERIF + "/tools", "vector.register_awkward()\n" if registered else "", seed, tier, q))
+
+
+def operator_replay(seed, tier, key):
+    return ("import sys; sys.path.insert(0, %r); sys.path.insert(0, %r)\nfrom harness import backends as Bk\n"
+            "class X: seed=%d; tier=%r\nbad, _ = Bk.operator_value_lattice(X)\nhit=[b for b in bad if b[2]==%r]\n"
+            "assert not hit, hit[0][0] + ' :: ' + hit[0][1]\n" % (C.VERIF, C.VERIF + "/tools", seed, tier, key))
